@@ -174,7 +174,11 @@ def rewrite(rng, rows):
                 r[5] = pad(r[5])
                 r[6] = pad(r[6])
             if r[0].strip().lower() == "c":
-                r[3] = r[3] + " " * rng.randint(0, 2)
+                r[2] = pad(r[2])
+                r[3] = pad(r[3])
+            if r[0].strip().lower() == "d":
+                r[1] = pad(r[1])
+                r[2] = pad(r[2])
         applied.append("blanks")
     if "trailing" in choice:
         for r in rows:
